@@ -11,9 +11,9 @@ import (
 
 // walkModel is parser.Walk read as a table.
 type walkModel struct {
-	p    *Program
-	at   map[ast.Expr]ast.Node // pushed expression -> the call that pushes it
-	full map[ast.Expr]bool     // pushed "expression" standing for every element of a slice (helper call)
+	p        *Program
+	at       map[ast.Expr]ast.Node // pushed expression -> the call that pushes it
+	full     map[ast.Expr]bool     // pushed "expression" standing for every element of a slice (helper call)
 	fd       *ast.FuncDecl
 	stackObj types.Object
 	visitObj types.Object
